@@ -469,4 +469,74 @@ def pc_update(ctx: Ctx, py: PyProgram) -> None:
     last = max((c.lineno for c in sets), default=0)
     if not loop or last > loop[0].lineno:
         ctx.violation("C05.5/pc-update", key_of(isa.EMU_PY, "Emulator._execute_instruction_impl", "order"), "PC is not advanced before the IL is evaluated", f"{isa.EMU_PY}:{fn.lineno}")
-    ctx.instance("C05.5/pc-update", "PC := address+length before IL evaluation (normal + WAIT paths)", n, 3)
+    # every exit of the step has advanced PC (and gone on to evaluate the IL): a return that is not dominated by an `address + length`
+    # PC write leaves PC where it was while get_instruction_info reports address+length / the branch target (a "do nothing when
+    # <some state>" early exit is such a path)
+    from .. import cfg as _cfg
+    g = _cfg.build_py(fn, "Emulator._execute_instruction_impl")
+    nexts = [g.node_of(c) for c, k in zip(sets, kinds) if k == "next"]
+    parent = {}
+    for p_ in ast.walk(fn):
+        for ch in ast.iter_child_nodes(p_):
+            parent[id(ch)] = p_
+    for r in [r for r in ast.walk(fn) if isinstance(r, ast.Return)]:
+        anc = parent.get(id(r))
+        while anc is not None and anc is not fn and not isinstance(anc, (ast.FunctionDef, ast.Lambda)):
+            anc = parent.get(id(anc))
+        if anc is not fn:
+            continue            # return of a nested helper
+        n += 1
+        rn = g.node_of(r)
+        if rn is None or not any(x is not None and g.dominates(x, rn) for x in nexts):
+            ctx.violation("C05.5/pc-update", key_of(isa.EMU_PY, "Emulator._execute_instruction_impl", "exit without advancing PC"),
+                          f"_execute_instruction_impl returns at line {r.lineno} on a path with no `PC := address + length`: the instruction is reported (fall-through, branch target) but not executed, so the PC reached differs from the metadata", f"{isa.EMU_PY}:{r.lineno}")
+    ctx.instance("C05.5/pc-update", "PC := address+length before IL evaluation (normal + WAIT paths); every exit dominated by it", n, 4)
+    fetch_decoder_fresh(ctx, py, "C05.6/fetch-window-fresh")
+
+
+def fetch_decoder_fresh(ctx: Ctx, py: PyProgram, rule: str) -> None:
+    """The byte source handed to decode() by the emulator's fetch is built for this fetch: a decoder object kept on `self` whose class
+    remembers bytes (a written container) serves operand bytes read during an earlier step, so a patched jump target is executed with
+    its old operands while the hooks, given the current bytes, report the new target."""
+    from ..memo import written_containers
+    from ..rules import py_defs
+    fn = py.func(isa.EMU_PY, "Emulator.decode_instruction")
+    calls = [c for c in ast.walk(fn) if isinstance(c, ast.Call) and unparse(c.func) == "decode" and c.args]
+    if not calls:
+        raise AnalysisError("Emulator.decode_instruction: decode() call not found")
+    d = py_defs(fn)
+    n = 0
+    for c in calls:
+        srcs, todo, seen = [], [c.args[0]], set()
+        while todo:
+            e = todo.pop()
+            if isinstance(e, ast.Name) and e.id in d and e.id not in seen:
+                seen.add(e.id)
+                todo += [v for v in d[e.id] if isinstance(v, ast.AST)]
+            elif isinstance(e, ast.IfExp):
+                todo += [e.body, e.orelse]
+            else:
+                srcs.append(e)
+        for e in srcs:
+            n += 1
+            ch = attr_chain(e) if isinstance(e, ast.Attribute) else None
+            if ch and ch.startswith("self."):
+                # which class is kept there?
+                cls_names = set()
+                emod = py.module(isa.EMU_PY)
+                for a in ast.walk(emod.tree):
+                    if isinstance(a, (ast.Assign, ast.AnnAssign)) and a.value is not None and any(attr_chain(t) == ch for t in (a.targets if isinstance(a, ast.Assign) else [a.target])):
+                        for x in ast.walk(a.value):
+                            if isinstance(x, ast.Call) and isinstance(x.func, ast.Name):
+                                cls_names.add(x.func.id)
+                stateful = []
+                for cn in sorted(cls_names):
+                    r0 = py.resolve_symbol(emod, cn)
+                    if r0 is None:
+                        raise AnalysisError(f"Emulator keeps a decoder of class {cn} on {ch}; the class is outside the repository, cannot tell whether it remembers bytes")
+                    if isinstance(r0[1], ast.ClassDef) and written_containers(r0[0]):
+                        stateful.append(cn)
+                if stateful or not cls_names:
+                    ctx.violation(rule, key_of(isa.EMU_PY, "Emulator.decode_instruction", "fetch decoder kept across steps"),
+                                  f"decode() reads through `{ch}` ({', '.join(stateful) or 'unknown class'}), an object that outlives the step and remembers bytes it has read: an instruction whose operand bytes changed since is executed with the old operands", f"{isa.EMU_PY}:{c.lineno}")
+    ctx.instance(rule, "byte sources handed to decode() by the emulator fetch: built per fetch, or stateless", n, 1)
